@@ -179,6 +179,9 @@ def canon_log(log, sw):
     for kw in log:
         try:
             ranks = [sw['values'][a].index(kw[a]) for a in fa]
+            # the value itself must have been handed on, not something merely equal to it (1 == 1.0 == True)
+            if any(type(kw[a]) is not type(sw['values'][a][r]) for a, r in zip(fa, ranks)):
+                ranks = ['?type']
         except (KeyError, ValueError):
             ranks = ['?']
         rest = sorted((k, repr(v)) for k, v in kw.items() if k not in fa)
